@@ -23,6 +23,8 @@ def schedule_from_states(states):
                 cmd = {"op": "env", "act": "StartShutdown"}
             elif old == "none" and new == "new!" and role == "T":
                 cmd = {"op": "env", "act": "TimerFire"}
+        if cmd is None and a.get("listener") == "open" and b.get("listener") == "closed" and all(v == "none" for k, v in b["pc"].items() if k.endswith('"D">>')):
+            cmd = {"op": "env", "act": "OwnerClose"}
         if cmd is None:
             if len(b["acceptQ"]) > len(a["acceptQ"]):
                 cmd = {"op": "env", "act": "CliConnect", "c": b["acceptQ"][-1]}
@@ -174,7 +176,8 @@ def oracle(run, want):
     end = end[0]
     drain = next((i for i, x in enumerate(run) if x["ev"] == "note" and x.get("what") == "drain"), len(run))
     shutdown = any(x["ev"] == "env" and x["act"] == "StartShutdown" for x in run)
-    sd_ret = next((i for i, x in enumerate(run) if x["ev"] == "rel" and x["g"] == "sd.return"), None)
+    # Shutdown has returned: its last gate was released, or the driver saw the call return (whatever gates it passed)
+    sd_ret = next((i for i, x in enumerate(run) if (x["ev"] == "rel" and x["g"] == "sd.return") or (x["ev"] == "obs" and x.get("kind") == "shutdown-returned")), None)
     for c in (1, 2):
         sent = [x["kind"] for x in run if x["ev"] == "env" and x["act"] == "CliSend" and x["c"] == c]
         connected = any(x["ev"] == "env" and x["act"] == "CliConnect" and x["c"] == c for x in run)
@@ -219,6 +222,12 @@ def oracle(run, want):
             late = [x for x in run[sd_ret:] if x["ev"] == "rel" and x["g"] == "u.handler"]
             if late:
                 res.append(("shutdown:handler-started-after-shutdown-returned", "handler invoked after Shutdown returned: %s" % late[0]))
+            # ... and every connection whose connect hook succeeded has had its terminate hook by then
+            for c in (1, 2):
+                hooked = next((i for i, x in enumerate(run) if x["ev"] == "rel" and x["g"] == "u.connect" and x["p"][0] == c and x.get("out") == "ok"), None)
+                term = next((i for i, x in enumerate(run) if x["ev"] in ("rel", "arr") and x["g"] == "u.terminate" and x["p"][0] == c), None)
+                if hooked is not None and hooked < sd_ret and (term is None or term > sd_ret):
+                    res.append(("shutdown:returned-before-terminate-hook", "conn %d: connect hook succeeded before Shutdown returned, its terminate hook had not run by then" % c))
             if end["serve"] != "shutdown":
                 res.append(("shutdown:serve-result-" + str(end["serve"]), "Serve returned %s" % end["serve"]))
     return res
